@@ -1,5 +1,6 @@
 import PdshVerif.Base.Hex
 import PdshVerif.Relay.Model
+import PdshVerif.Relay.Growth
 import PdshVerif.Relay.Spec
 import Driver.Util
 
@@ -8,6 +9,8 @@ import Driver.Util
     pdshmodel relay index <meta> [split|joined]   index-level cbuf model underneath
     pdshmodel relay fifo  <meta> [split|joined]   FIFO specification + cbuf.c policy underneath
     pdshmodel relay spec                          the property-level oracle (C05/C06)
+    pdshmodel relay growth <meta>                 `growthOk <meta>` for the regenerated constants, the capacities
+                                                  the buffer runs through, the first step that loses data (if any)
 
     begin L K N name_0 .. name_{N-1}  -> ok <keep_domain> <meta>
     feed i s HEX | eof i s | drain i s | flush i   -> <ncalls> <last ret> <th->rc> | S:HEX ...
@@ -152,6 +155,16 @@ def main (args : List String) : IO UInt32 := do
     let m := m.toNat?.getD 1
     Driver.forLines stdin (none : Option (Case PBuf)) (step fifoOps (mkFifoBuf m) m (splitArg rest)); return 0
   | ["spec"] => Driver.forLines stdin () (fun _ l => ((), specLine l)); return 0
+  | ["growth", m] =>
+    -- the side condition of the losslessness theorems on the regenerated constants (Relay/Growth.lean)
+    let m := m.toNat?.getD 1
+    let mx := Gen.RELAY_CBUF_MAX
+    let path := growthPath mx Gen.CBUF_CHUNK m 4096 Gen.RELAY_CBUF_MIN
+    let bad := match firstBadStep mx Gen.CBUF_CHUNK m 4096 Gen.RELAY_CBUF_MIN with
+      | some (s, n) => s!"{s}:{n}"
+      | none => "-"
+    IO.println s!"ok={if growthOk m then 1 else 0} min={Gen.RELAY_CBUF_MIN} max={mx} chunk={Gen.CBUF_CHUNK} meta={m} meta_assert={Gen.RELAY_SIZE_META_ASSERT} magic={Hex.encode magic} bad={bad} path={",".intercalate (path.map toString)}"
+    return 0
   | _ => IO.eprintln "usage: pdshmodel relay index|fifo <meta> [split|joined] | spec"; return 2
 
 end Driver.RelayDrv
